@@ -13,6 +13,7 @@ FUNCTIONS = [
     "process_completed_fragment (DONT_DEDUPLICATE, fragment block flags)",
     "deduplicate_blocks / write_data_block (DONT_DEDUPLICATE)",
     "sqfs_writer_init (export flag)",
+    "add_export_table_entry", "sqfs_dir_writer_write_export_table",
 ]
 TRUSTED = [
     "strcmp(path, name) / fnmatch(pattern, path, flags) as used for matching: arbitrary answer per (line, node) pair; their argument values and flags are checked at the call (C17.match.glob_mode, C17.match.decoded). fnmatch semantics itself is POSIX's",
@@ -30,7 +31,7 @@ ASSUMPTIONS = [
     "fault injection of get_line/get_path is off in sort_match (symbolic early exits defeat constant propagation of the line text); C17.match.fail_stop is therefore only checked on the fault-free path there. Fail-stop of these paths is C13's",
     "block size 4096 (append: 256 in the quick tier, 4096 in the thorough tier); block index < 8 in bp_pcb_data (no inode growth)",
     "the layout on disk follows the call order because the block writer only appends (C14) and blocks are written in submission order (C02); not re-proved here",
-    "the export table contents (entry for inode n at slot n-1) are C03.export.table; here only the switch reaches the directory writer",
+    "export table <= 8 slots (symbolic fill, capacity and contents); that every inode's reference is offered to the table (dir writer call sites) is C03's",
     "options parsing (-T, -e, -S), glob semantics of fnmatch, the image as decoded by an independent parser: outside",
     "node flags handed to pack_file are user-settable bits (what decode_flags can produce: C17.flags.decode)",
 ]
@@ -123,6 +124,11 @@ HARNESSES = [
              "get_size": "stub_unreachable_get_size", "write_at": "stub_unreachable_write_at"},
          must_have=["C08.blk.dont_dedup_own"],
          cases=[dict(id="u4f2", defines={"NB": 4, "USED": 4, "FS": 2}, unwind=5, tier="quick")]),
+    dict(name="export_table", file="export_table.c", label="bounded(export table <= 8 slots)", timeout=60,
+         fp={"destroy": "stub_destroy"}, unwind=9,
+         cases=[dict(id="add", defines={"OP": 0, "HAVE_TABLE": 1}, tier="quick"),
+                dict(id="write", defines={"OP": 1, "HAVE_TABLE": 1}, tier="quick"),
+                dict(id="write_absent", defines={"OP": 1, "HAVE_TABLE": 0}, tier="quick")]),
     dict(name="export_flag", file="../C08/init_compare.c", label="proved", timeout=300,
          fp={"write_options": "stub_write_options", "destroy": "stub_destroy"},
          must_have=["C17.export.flag"],
